@@ -334,14 +334,26 @@ def _consumers(prog, rep):
     r5 = rep.rule("R5", "consumers honour the bridge state (HG suppression, CYX naming, clash exemption)", floor=4)
     ah = prog.func("biomolecule.py", "Biomolecule.add_hydrogens").node
     from ..core import expand_temps
+    modelled = None
+    try:
+        from .shared import add_hydrogens_on_models
+        modelled = add_hydrogens_on_models(prog)
+    except AnalysisError:
+        modelled = None
+    if modelled is not None:
+        wrong = {k: v for k, v in modelled.items() if k in ("free cysteine", "bridged cysteine", "serine (HG on another residue)") and v[0] != v[1]}
+        r5.add("HG-suppressed-iff-bonded", not wrong, "add_hydrogens on model residues: the thiol hydrogen is left out for the bridged cysteine only (free cysteine and "
+               "a serine get their HG; the other hydrogens are built in all three)" + (f" - NOT so (built, expected): {wrong}" if wrong else ""),
+               f"pdb2pqr/biomolecule.py:{ah.lineno} (add_hydrogens)")
     hg = [s for s in iter_stmts(ah.body) if isinstance(s, ast.If) and "ss_bonded" in U(expand_temps(s.test, ah))]
     okhg = False
-    if hg:
+    if hg and modelled is None:
         t = U(expand_temps(hg[0].test, ah))  # (a test hoisted into a local reads as the test itself)
         okhg = "isinstance(residue, aa.CYS)" in t and "residue.ss_bonded" in t and "atomname == 'HG'" in t \
             and isinstance(hg[0].body[-1], ast.Continue) and " or " not in t
-    r5.add("HG-suppressed-iff-bonded", okhg, f"add_hydrogens skips a hydrogen under {U(hg[0].test) if hg else '<no test>'}",
-           f"pdb2pqr/biomolecule.py:{hg[0].lineno if hg else ah.lineno} (add_hydrogens)")
+    if modelled is None:
+        r5.add("HG-suppressed-iff-bonded", okhg, f"add_hydrogens skips a hydrogen under {U(hg[0].test) if hg else '<no test>'}",
+               f"pdb2pqr/biomolecule.py:{hg[0].lineno if hg else ah.lineno} (add_hydrogens)")
     t = Tables(prog.root)
     model = Model(prog, t)
     for label, ss, patches, hgp in (("flag-only", True, [], False), ("patch-only", False, ["CYX"], False),
